@@ -367,7 +367,7 @@ def plan(tier):
         "strategies": [
             ("token", token, 120 if quick else 5000),
             ("params", params, 200 if quick else 15000),
-            ("request", request, 6 if quick else 200),
+            ("request", request, 30 if quick else 600),
         ],
         "shrink": "hypothesis",
         "budget_s": 120 if quick else 1200,
